@@ -208,6 +208,28 @@ def _flows_only_into_profile(f, s, depth=3):
     return n_store >= 1
 
 
+def _default_hashed(ty):
+    """the type is (a reference to) a std HashMap / HashSet with the default, randomly keyed hasher: `RandomState` spelled out, or — as
+    rustc prints defaulted parameters — HashSet<T> with one / HashMap<K, V> with two type arguments"""
+    if 'RandomState' in ty:
+        return True
+    t = re.sub(r"^&\s*('[a-z_]+\s+)?(mut\s+)?", '', ty)
+    for head, n_default in (('std::collections::HashSet<', 1), ('std::collections::HashMap<', 2)):
+        if t.startswith(head) and t.endswith('>'):
+            inner = t[len(head):-1]
+            depth = 0
+            parts = 1
+            for ch in inner:
+                if ch in '<([':
+                    depth += 1
+                elif ch in '>)]':
+                    depth -= 1
+                elif ch == ',' and depth == 0:
+                    parts += 1
+            return parts == n_default
+    return False
+
+
 def r3_forbidden_sources(ctx):
     ctx.set_rule('C04.R3')
     P = ctx.P
@@ -230,7 +252,7 @@ def r3_forbidden_sources(ctx):
                         ctx.ok('wall-clock value in %s flows only into the profiler record (%s)' % (short(f.key), list(ALLOW_MODULES.values())[0]), s.where(), nme)
                     else:
                         ctx.violation('forbidden:%s:%s' % (f.key, nme.split('::')[-1]), '%s (%s) reachable in simulation code — a source of run-to-run nondeterminism' % (what, nme), s.where())
-            if s.argtys and 'RandomState' in s.argtys[0] and nme.split('::')[-1] in ITER_METHODS:
+            if s.argtys and (_default_hashed(s.argtys[0])) and nme.split('::')[-1] in ITER_METHODS and not f.key.split('::')[-1] in ('eq', 'clone', 'fmt'):
                 ctx.violation('hash-iteration:%s' % f.key, 'iteration over a RandomState-hashed collection (order differs between processes)', s.where(), s.argtys[0][:160])
         # pointer -> integer casts outside the allocator
         if f.key.startswith('des_cqueue::stable::alloc::') or f.key.startswith('<des_cqueue::stable::alloc::'):
@@ -283,6 +305,25 @@ def r4_static_inventory(ctx):
             ctx.violation('reset-missing:%s' % p, 'reset point %s of static %s no longer exists' % (reset_fn, p)); continue
         users, _ = static_users(P, p)
         ctx.check(f in users, 'reset-touches:%s' % p, 'the reset point %s still operates on %s' % (short(reset_fn), p.split('::')[-1]), f.where())
+    # the event buffer's reset is complete: dropping a simulation leaves nothing of it in the process-global buffer (events buffered by
+    # at_sim_end handlers are never flushed and would otherwise be scheduled into the NEXT simulation of the process)
+    fb = P.fns.get('des::net::runtime::ctx::buf_drop')
+    if fb is not None:
+        whole = False
+        for b in sorted(fb.reachable()):
+            for i, st in enumerate(fb.stmts(b)):
+                if st['k'] == 'assign' and st['p']['pr'] and st['p']['pr'][-1]['k'] == 'deref' and len(st['p']['pr']) == 1 \
+                        and 'BufferContext' in fb.local_ty(st['p']['l']):
+                    v = peel(fb.expr_rvalue(st['r'], b, i))
+                    if (v[0] == 'call' and v[1].endswith('BufferContext::new')) or (v[0] == 'agg' and 'BufferContext' in str(v[1])) or v[0] == 'constdef':
+                        whole = True
+        from .C03 import _buffer_container_types
+        conts = _buffer_container_types(P)
+        emptied = any(c.name.split('::')[-1] in ('clear', 'drain', 'take', 'truncate') and c.argtys and
+                      any(re.sub(r"^&\s*('[a-z_]+\s+)?(mut\s+)?", '', c.argtys[0]) == t_ for t_ in conts) for c in fb.calls()) or \
+            any(c.name in ('std::mem::take', 'std::mem::replace') and c.args and any(x[0] == 'field' and x[2] == 'events' for x in walk(fb.expr_operand(c.args[0], c.b, 'T'))) for c in fb.calls())
+        ctx.check(whole or emptied, 'reset-complete:des::net::runtime::ctx::BUF_CTX',
+                  'buf_drop resets the whole buffer context (or at least empties the buffered events): no event of a finished simulation survives into the next one', fb.where())
     # reset points are still called from where they must be
     need = [
         ('des::net::runtime::ctx::buf_drop', ('<des::net::runtime::guard::SimStaticsGuard as std::ops::Drop>::drop',)),
